@@ -2,7 +2,8 @@
 # tools/refresh_evidence.sh — run the 20 quick checks on the clean /repo tree (evidence/ is rewritten) and validate MANIFEST + evidence.
 cd "$(dirname "$0")/.."
 [ -z "$(git -C /repo status --porcelain)" ] || { echo "/repo not clean"; exit 2; }
-printf "%s\n" C01 C02 C03 C04 C05 C06 C07 C08 C09 C10 C11 C12 C13 C14 C15 C16 C17 C18 C19 C20 | xargs -P 5 -I{} bash -c "./check {} quick > .work/refresh_{}.log 2>&1; echo {}:\$?" | tr '\n' ' '; echo
+printf "%s\n" C01 C02 C03 C04 C05 C06 C07 C08 C09 C10 C11 C12 C13 C14 C15 C16 C17 C18 C19 C20 | xargs -P 5 -I{} bash -c "./check {} quick > .work/refresh_{}.log 2>&1; echo {}:\$?" | tr '\n' ' ' > .work/refresh_rc.txt; cat .work/refresh_rc.txt; echo
+if grep -q ":[12]" .work/refresh_rc.txt; then echo "SOME CHECK DID NOT EXIT 0"; exit 1; fi
 python3-vt - <<'P'
 import json, jsonschema
 jsonschema.validate(json.load(open('MANIFEST.json')), json.load(open('/root/.vp/MANIFEST.schema.json')))
